@@ -101,8 +101,7 @@ def _field(draw, pool, allow_int=True, allow_vec=True, allow_stencil=True,
         arg["dtype"] = "integer"
     if allow_vec and draw(st.integers(0, 3)) == 0:
         arg["vec"] = draw(st.integers(2, 4))
-    if allow_stencil and access == "gh_read" and \
-            draw(st.integers(0, 2)) == 0:
+    if allow_stencil and access == "gh_read" and draw(st.booleans()):
         arg["stencil"] = draw(st.sampled_from(STENCILS))
         arg["ext"] = draw(st.sampled_from(["var", "var", "lit", "shared"]))
         if arg["stencil"] == "xory1d":
@@ -373,7 +372,10 @@ def invalid_reason(rec):
             if arg["acc"] != "gh_read":
                 return "scalar written"
         elif arg["kind"] == "field":
-            if arg["acc"] not in field_accesses(arg["fs"]):
+            # DoF kernels follow the access modes of the built-ins
+            legal = (DISC_ACCESS if rec.get("flavour") == "dof"
+                     else field_accesses(arg["fs"]))
+            if arg["acc"] not in legal:
                 return f"access {arg['acc']} on {arg['fs']}"
             if arg.get("stencil") and arg["acc"] != "gh_read":
                 return "stencil on written field"
